@@ -1,7 +1,7 @@
 /-
 M-Proto proofs, part 4 (C17): concrete witnesses, all by kernel evaluation (`decide`).
 Three of them are NEGATION witnesses for defects of the current code:
-D32 (conflicts are detected on raw strings, files are written at the cleaned join),
+D42 (conflicts are detected on raw strings, files are written at the cleaned join),
 D34 (a Thrift file called "...thrift" makes the core generator leave the output directory),
 D33 (the write loop is not atomic).
 -/
@@ -15,7 +15,7 @@ deriving instance DecidableEq for Except
 deriving instance DecidableEq for FS
 end C17Inst
 
-/-- D32: two plugins answer `x.go` and `./x.go`; the raw keys differ, so no conflict is
+/-- D42: two plugins answer `x.go` and `./x.go`; the raw keys differ, so no conflict is
 reported, and both contents are planned for the same file. -/
 theorem conflict_after_clean_undetected_witness :
     generatePlan "/r".toList "/o".toList []
